@@ -1,0 +1,70 @@
+//go:build verif
+
+package api
+
+// Verification hook for /verif property C21 (added file; no existing line is touched).
+// Compiles an expression exactly as newVM does and lists the instructions in a canonical,
+// address-free text form so that the compiler model can be compared structurally.
+
+import (
+	"fmt"
+
+	"diagonal.works/b6"
+)
+
+func verifCallable(c Callable) string {
+	switch c := c.(type) {
+	case goCall:
+		return "fn:" + c.expression.String()
+	case *goCall:
+		return "fn:" + c.expression.String()
+	case *lambdaCall:
+		return fmt.Sprintf("lam:%d:%d", c.pc, c.args)
+	case *partialCall:
+		return "partial"
+	}
+	return "callable?"
+}
+
+// VerifCompileDump returns one word per instruction:
+//
+//	push:int:<n> | push:lit | push:fn:<name> | push:lam:<pc>:<args> | store:<r> | discard | load:<r> |
+//	callv:fn:<name>:<n> | callv:lam:<pc>:<args>:<n> | calls:<n> | ret | jump:<d>
+func VerifCompileDump(e b6.Expression, fs FunctionSymbols) ([]string, error) {
+	vm, err := newVM(e, fs)
+	if err != nil {
+		return nil, err
+	}
+	out := make([]string, 0, len(vm.Instructions))
+	for _, i := range vm.Instructions {
+		switch i.Op {
+		case OpPushValue:
+			if !i.Value.IsValid() {
+				out = append(out, "push:invalid")
+			} else if c, ok := i.Value.Interface().(Callable); ok {
+				out = append(out, "push:"+verifCallable(c))
+			} else if n, ok := i.Value.Interface().(int); ok {
+				out = append(out, fmt.Sprintf("push:int:%d", n))
+			} else {
+				out = append(out, "push:lit")
+			}
+		case OpStore:
+			out = append(out, fmt.Sprintf("store:%d", i.Args[ArgsStoreLocation]))
+		case OpDiscard:
+			out = append(out, "discard")
+		case OpLoad:
+			out = append(out, fmt.Sprintf("load:%d", i.Args[0]))
+		case OpJump:
+			out = append(out, fmt.Sprintf("jump:%d", i.Args[ArgsJumpDestination]))
+		case OpCallValue:
+			out = append(out, fmt.Sprintf("callv:%s:%d", verifCallable(i.Callable), i.Args[ArgsNumArgs]))
+		case OpCallStack:
+			out = append(out, fmt.Sprintf("calls:%d", i.Args[ArgsNumArgs]))
+		case OpReturn:
+			out = append(out, "ret")
+		default:
+			out = append(out, fmt.Sprintf("bad:%d", i.Op))
+		}
+	}
+	return out, nil
+}
